@@ -352,3 +352,46 @@ def comp_of_append_loop(scope, name: str):
         return None
     lc = ast.ListComp(elt=st.value.args[0], generators=[ast.comprehension(target=loops[0].target, iter=loops[0].iter, ifs=ifs, is_async=0)])
     return ast.fix_missing_locations(ast.copy_location(lc, loops[0]))
+
+
+UNUSED_CONTROL_SRC = """
+def good(a, shift=0):
+    return a + shift
+def bad(a, shift=0):
+    return a + 0
+"""
+
+
+def unused_params(fn_node: ast.FunctionDef) -> List[str]:
+    """parameters (other than self / cls / _private) that the body never reads; abstract stubs have none"""
+    ps = [a.arg for a in fn_node.args.posonlyargs + fn_node.args.args + fn_node.args.kwonlyargs if a.arg not in ("self", "cls")]
+    body = [b for b in fn_node.body if not (isinstance(b, ast.Expr) and isinstance(b.value, ast.Constant))]
+    if not body or (len(body) == 1 and isinstance(body[0], (ast.Pass, ast.Raise))) or any(
+            unparse(d).endswith(("abstractmethod", "overload")) for d in fn_node.decorator_list):
+        return []
+    loads = {x.id for x in ast.walk(fn_node) if isinstance(x, ast.Name) and isinstance(x.ctx, ast.Load)}
+    return [p_ for p_ in ps if p_ not in loads and not p_.startswith("_")]
+
+
+def unused_param_insts(ctx, rid: str, prefixes, what: str, effect: str) -> List[R.Inst]:
+    """every option a function of `prefixes` accepts is read (expected violations: zero; a positive and a negative example are
+    evaluated on every run).  `effect`: what ignoring an option means for the property, for the report."""
+    M = ctx.M
+    t = {f.name: f for f in ast.parse(UNUSED_CONTROL_SRC).body}
+    if unused_params(t["bad"]) != ["shift"] or unused_params(t["good"]):
+        raise AnalysisError(f"{rid}: the unused-parameter scan no longer tells its positive example from its negative one")
+    insts, n = [], 0
+    for q, f in sorted(M.funcs.items()):
+        if f.outer_fn is not None or CTL in q or not any(q.startswith(p_) for p_ in prefixes):
+            continue
+        n += 1
+        for p_ in unused_params(f.node):
+            insts.append(R.viol(rid, f"{short(q)}:{p_}", M.mods[f.mod].rel, f.node.lineno,
+                                f"the parameter '{p_}' of {short(q)} is accepted and never read: {effect} (every caller in the library and "
+                                f"every test passes the default, which is why nothing notices)", construct=f"{short(q)}: parameter {p_} unused"))
+    if not insts:
+        insts.append(R.ok(rid, "parameters-used", "", 0, idiom=f"every parameter of the {n} {what} is read"))
+    if n == 0:
+        raise AnalysisError(f"{rid}: no function found under {prefixes}")
+    return insts
+
